@@ -708,15 +708,39 @@ def rule_sibling(prog: Program) -> List[Instance]:
     f = prog.func("_xr_interop:_xr_reproject_da")
     gm = any(isinstance(n, ast.Assign) and isinstance(n.targets[0], ast.Subscript) and "encoding" in short(n.targets[0]) and "grid_mapping" in short(n.targets[0]) for n in walk_own(f.node))
     out.append(Instance("R-SIBLING", f"{f.qual}#grid_mapping", OK if gm else BAD, "output encoding names the CRS coordinate" if gm else "output encoding['grid_mapping'] is not set", f.where()))
-    # dims / shape use destination geobox between the leading and trailing axes
+    # dims / shape are spliced: leading axes of the source + the destination's two + trailing axes of the source
+    src_p = f.param_names()[0]
+    dst_names = {n.targets[0].id for n in walk_own(f.node) if isinstance(n, ast.Assign) and isinstance(n.targets[0], ast.Name) and isinstance(n.value, ast.Call) and call_name(n.value) == "output_geobox"}
+    dst_names |= {n.targets[0].id for n in walk_own(f.node) if isinstance(n, ast.Assign) and isinstance(n.targets[0], ast.Name) and isinstance(n.value, ast.Name) and n.value.id in f.param_names()[1:2]}
+
+    def _src_slice(e: ast.AST):
+        """*<src>.<attr>[lo:hi] -> (attr, lo, hi)"""
+        if isinstance(e, ast.Starred) and isinstance(e.value, ast.Subscript) and isinstance(e.value.slice, ast.Slice) and isinstance(e.value.value, ast.Attribute) \
+                and isinstance(e.value.value.value, ast.Name) and e.value.value.value.id == src_p:
+            return e.value.value.attr, e.value.slice.lower, e.value.slice.upper
+        return None
+
     for n in walk_own(f.node):
-        if isinstance(n, ast.Assign) and isinstance(n.targets[0], ast.Name) and n.targets[0].id in ("dims", "dst_shape") and isinstance(n.value, ast.Tuple):
-            parts = [short(e.value) if isinstance(e, ast.Starred) else short(e) for e in n.value.elts]
-            src_attr = "dims" if n.targets[0].id == "dims" else "shape"
-            mid = "dst_geobox.dimensions" if n.targets[0].id == "dims" else "dst_geobox.shape"
-            ok = parts == [f"src.{src_attr}[:ydim]", mid, f"src.{src_attr}[ydim + 2:]"]
-            out.append(Instance("R-SIBLING", f"{f.qual}#{n.targets[0].id}", OK if ok else BAD,
-                                f"{n.targets[0].id} = leading axes + destination {mid.split('.')[1]} + trailing axes" if ok else f"{n.targets[0].id} assembled as {parts}", f.where(n)))
+        if not (isinstance(n, ast.Assign) and isinstance(n.targets[0], ast.Name) and isinstance(n.value, ast.Tuple) and len(n.value.elts) == 3):
+            continue
+        a, m, b = n.value.elts
+        sa, sb = _src_slice(a), _src_slice(b)
+        if sa is None and sb is None:
+            continue
+        tname = n.targets[0].id
+        ok = False
+        why = "not of the form (*src.A[:k], *dst.B, *src.A[k + 2:])"
+        if sa is not None and sb is not None and sa[0] == sb[0] and sa[0] in ("dims", "shape"):
+            k = sa[2]
+            lead_ok = sa[1] is None and isinstance(k, ast.Name)
+            trail_ok = sb[2] is None and isinstance(sb[1], ast.BinOp) and isinstance(sb[1].op, ast.Add) and isinstance(k, ast.Name) and short(sb[1].left) == k.id and const_num(sb[1].right) == 2
+            mid_attr = m.value if isinstance(m, ast.Starred) else m
+            want_attr = "dimensions" if sa[0] == "dims" else "shape"
+            mid_ok = isinstance(mid_attr, ast.Attribute) and mid_attr.attr == want_attr and isinstance(mid_attr.value, ast.Name) and mid_attr.value.id in dst_names
+            ok = lead_ok and trail_ok and mid_ok
+            why = f"leading ok={lead_ok}, destination part ok={mid_ok}, trailing ok={trail_ok}"
+        out.append(Instance("R-SIBLING", f"{f.qual}#splice:{tname}", OK if ok else BAD,
+                            f"{tname} = leading source axes + the destination geobox's two + trailing source axes" if ok else f"`{short(n, 80)}` does not splice the destination's axes between the source's leading and trailing ones ({why})", f.where(n)))
     return out
 
 
